@@ -356,7 +356,16 @@ pub proof fn lemma_method_names_distinct()
 }
 """)
     import rules
-    u.add(u.fn(CT, 'parse_mode', props=('C18',), ret='r', post_rewrite=[(lambda t: _params(rules.r20_str_match(t, 's')[0]), None, 1)], ensures=[
+    def _pm(t):
+        # `match s { "classic" => .. }` -> if-chain over str_eq (R20); the same function written as an `if s == "lit"` chain gets the comparisons
+        # rewritten directly
+        try:
+            t = rules.r20_str_match(t, 's')[0]
+        except rules.RuleError:
+            t = re.sub(r'\b(\w+) == ("(?:[^"\\]|\\.)*")', r'str_eq(\1, \2)', t)
+            t = re.sub(r'\b(\w+) != ("(?:[^"\\]|\\.)*")', r'!str_eq(\1, \2)', t)
+        return _params(t)
+    u.add(u.fn(CT, 'parse_mode', props=('C18',), ret='r', post_rewrite=[(_pm, None, 1)], ensures=[
         C('C18.ctl.parse_mode.accepts_exactly_classic_and_enhanced_else_minus_32602',
           'match r { Ok(md) => valid_mode_name(s@) && md == mode_of_name(s@), Err(e) => !valid_mode_name(s@) && e.code == -32602 }')],
         splices=[('@BEGIN', '    proof { lemma_method_names_distinct(); }', 'after')]))
